@@ -8,6 +8,7 @@ package anytype
 import (
 	"math"
 	"strconv"
+	"strings"
 )
 
 /*
@@ -383,7 +384,11 @@ func (ego *atFloat) serialize() string {
 	if abs >= math.Pow10(6) || (abs > 0 && abs <= math.Pow10(-6)) {
 		return strconv.FormatFloat(val, 'e', -1, 64)
 	}
-	return strconv.FormatFloat(val, 'f', -1, 64)
+	str := strconv.FormatFloat(val, 'f', -1, 64)
+	if !strings.Contains(str, ".") {
+		str += ".0"
+	}
+	return str
 }
 
 /*
